@@ -51,12 +51,17 @@ def wf_rate(h, r):
     """representation invariant of an exchange rate (the normal form C09
     states): distinct currencies, multiple a power of ten >= 1, term amount
     >= 0.1 with at most six fractional digits"""
+    return z3.And(wf_rate_core(h, r), wf_currency(h, er_unit(h, r)),
+                  wf_currency(h, er_term(h, r)))
+
+
+def wf_rate_core(h, r):
     m, t = er_mult(h, r), er_amnt(h, r)
     return z3.And(
-        alloc(h, r), wf_currency(h, er_unit(h, r)),
-        wf_currency(h, er_term(h, r)), er_unit(h, r) != er_term(h, r),
+        alloc(h, r), alloc(h, er_unit(h, r)), alloc(h, er_term(h, r)),
+        er_unit(h, r) != er_term(h, r),
         m == S.p10(S.lg10(m)), S.lg10(m) >= 0, m >= 1,
-        t >= TENTH, S.is_int(t * MILLION),
+        t >= TENTH,
         h.get("ExchangeRate._unit_multiple#tag", r) == T_DEC,
         h.get("ExchangeRate._term_amount#tag", r) == T_DEC)
 
@@ -190,6 +195,8 @@ def er_init_spec(ctx: Ctx):
                  t_(ph) == stored_amount(T, U, m_(ph)),
                  ph.get("ExchangeRate._term_amount#tag", self.t) == T_DEC))),
             ("magnitude-at-least-minus-one", post(lambda ph: t_(ph) >= TENTH)),
+            ("at-most-six-fractional-digits",
+             post(lambda ph: S.is_int(t_(ph) * MILLION))),
             ("well-formed", post(lambda ph: wf_rate(ph, self.t))),
         ], modifies=mods, result=build, props=["C09"]),
     ]
@@ -511,3 +518,387 @@ def er_truediv_spec(ctx: Ctx):
 
 register(Contract(KM + "ExchangeRate.__truediv__", er_truediv_spec,
                   _rate_other(["Rate", "int", "Qty", "None"]), props=["C09"]))
+
+
+# =============================================================================
+# MoneyConverter (C11)
+def er_accepts(uc_t, um: V, tc_t, ta: V):
+    """ExchangeRate(uc, um, tc, ta) is accepted (the guard of its 'normal-form'
+    case) -- numbers only"""
+    if not is_num(um) or not is_num(ta):
+        return FALSE
+    U, T = num_value(um), num_value(ta)
+    um_frac = isinstance(um, VRat) and um.known_tag() == T_FRAC
+    repr_ok = S.dec_representable(U) if um_frac else TRUE
+    return z3.And(uc_t != tc_t, repr_ok, S.is_int(U), U >= 1, T > 0, T >= MICRO)
+
+
+def mc_base(h, c):
+    return h.get("MoneyConverter._base_currency", c)
+
+
+def mc_rates(h, c):
+    return h.get("MoneyConverter._rate_dict", c)
+
+
+def mc_kind_none(h, c):
+    return h.get("MoneyConverter._type_of_validity#none", c)
+
+
+def mc_kind(h, c):
+    return h.get("MoneyConverter._type_of_validity", c)
+
+
+def rkey(v, cur):
+    return M.RateKey.mk_RateKey(v, cur)
+
+
+def rates_has(h, c, key):
+    return z3.Select(h.get("Dict:rate.$dom", mc_rates(h, c)), key)
+
+
+def rates_get(h, c, key):
+    return z3.Select(h.get("Dict:rate.$val", mc_rates(h, c)), key)
+
+
+_gk = z3.Const("ghost!ratekey", M.RateKey)
+
+
+def convinv_at(h, c, key):
+    """ConvInv at one key: an entry is a well-formed rate from the base
+    currency to the key's currency, and entries exist only once a kind of
+    validity is fixed"""
+    r = rates_get(h, c, key)
+    return z3.Implies(rates_has(h, c, key), z3.And(
+        z3.Not(mc_kind_none(h, c)), wf_rate_core(h, r),
+        er_unit(h, r) == mc_base(h, c),
+        er_term(h, r) == M.RateKey.rk_c(key)))
+
+
+def wf_conv(h, c):
+    return z3.And(alloc(h, c), alloc(h, mc_rates(h, c)),
+                  wf_currency(h, mc_base(h, c)),
+                  z3.Implies(z3.Not(mc_kind_none(h, c)),
+                             z3.And(mc_kind(h, c) >= 1, mc_kind(h, c) <= 4)))
+
+
+def validity_of(kind, y, m, d):
+    V_ = M.Validity if hasattr(M, "Validity") else None
+    from pyvc.sym import Validity
+    return z3.If(kind == 1, Validity.v_none,
+                 z3.If(kind == 2, Validity.v_year(y),
+                       z3.If(kind == 3, Validity.v_month(y, m),
+                             Validity.v_date(y, m, d))))
+
+
+def _date_of(ctx, conv_t, eff: V):
+    h = ctx.pre
+    if isinstance(eff, VDate):
+        return eff.y, eff.m, eff.d
+    return (h.get("MoneyConverter.$dflt_y", conv_t),
+            h.get("MoneyConverter.$dflt_m", conv_t),
+            h.get("MoneyConverter.$dflt_d", conv_t))
+
+
+# ---- MoneyConverter.update(self, validity, rate_specs) ---------------------------------
+def mc_update_spec(ctx: Ctx):
+    from pyvc.sym import Validity, validity_term
+    self, validity, specs = ctx.a("self"), ctx.a("validity"), ctx.a("rate_specs")
+    h = ctx.pre
+    c = self.t
+    req = [wf_conv(h, c), convinv_at(h, c, _gk)]
+    if isinstance(validity, VStr) or (isinstance(validity, VTuple) and any(
+            isinstance(i, VStr) for i in validity.items)):
+        raise Unsupported("string spellings of periods are a bounded stand-in")
+    if isinstance(validity, VNone):
+        v_ok, v_term, kind = TRUE, Validity.v_none, 1
+    elif isinstance(validity, VInt):
+        v_ok = z3.And(validity.t >= 1, validity.t <= 9999)
+        v_term, kind = Validity.v_year(validity.t), 2
+    elif isinstance(validity, VTuple) and len(validity.items) == 2:
+        y, m = validity.items[0].t, validity.items[1].t
+        v_ok = z3.And(y >= 0, y <= 9999, m >= 0, m <= 99,
+                      S.valid_date(y, m, z3.IntVal(1)))
+        v_term, kind = Validity.v_month(y, m), 3
+    elif isinstance(validity, VDate):
+        v_ok, kind = TRUE, 4
+        v_term = Validity.v_date(validity.y, validity.m, validity.d)
+    else:
+        return req, [Case("not-a-period", TRUE, raises="ValueError",
+                          props=["C11", "C16"])]
+    kind_ok = z3.Or(mc_kind_none(h, c), mc_kind(h, c) == kind)
+    rows = []
+    for sp in specs.items:
+        tcur, ta, um = sp.items
+        rows.append((tcur, ta, um))
+        req.append(wf_currency(h, tcur.t))
+    all_ok = z3.And(*[er_accepts(mc_base(h, c), um, tcur.t, ta)
+                      for tcur, ta, um in rows]) if rows else TRUE
+    for tcur, ta, um in rows:
+        if is_num(um) and is_num(ta):
+            U, T = num_value(um), num_value(ta)
+            ctx.axiom(z3.And(S.mag_fact(U), S.mag_fact(T)))
+
+    def view(cx, o):
+        ph = o.heap
+        # for an arbitrary key: the last spec with that key decides, keys not
+        # given keep their entry (whole-view postcondition)
+        hit_any = FALSE
+        conds = []
+        for tcur, ta, um in rows:
+            hit = _gk == rkey(v_term, tcur.t)
+            hit_any = z3.Or(hit_any, hit)
+        r_new = rates_get(ph, c, _gk)
+        cl = [z3.Implies(z3.Not(hit_any), z3.And(
+            rates_has(ph, c, _gk) == rates_has(h, c, _gk),
+            z3.Implies(rates_has(h, c, _gk),
+                       r_new == rates_get(h, c, _gk))))]
+        # the deciding spec: last one with that key
+        later = FALSE
+        for tcur, ta, um in reversed(rows):
+            hit = z3.And(_gk == rkey(v_term, tcur.t), z3.Not(later))
+            T, U = num_value(ta), num_value(um)
+            cl.append(z3.Implies(hit, z3.And(
+                rates_has(ph, c, _gk),
+                er_unit(ph, r_new) == mc_base(h, c),
+                er_term(ph, r_new) == tcur.t,
+                er_amnt(ph, r_new) == stored_amount(T, U, er_mult(ph, r_new)))))
+            later = z3.Or(later, _gk == rkey(v_term, tcur.t))
+        return z3.And(*cl)
+    mods = ["Dict:rate.*", "MoneyConverter._type_of_validity",
+            "ExchangeRate.*"]
+    cases = [
+        Case("invalid-period", z3.Not(v_ok), raises="ValueError",
+             props=["C11", "C16"]),
+        Case("different-kind-of-validity", z3.And(v_ok, z3.Not(kind_ok)),
+             raises="ValueError", props=["C11", "C16"]),
+        Case("invalid-rate-spec", z3.And(v_ok, kind_ok, z3.Not(all_ok)),
+             raises="ValueError|OverflowError|TypeError",
+             props=["C11", "C16"]),
+        Case("updated", z3.And(v_ok, kind_ok, all_ok), ensures=[
+            ("kind-fixed", lambda cx, o: z3.And(
+                z3.Not(mc_kind_none(o.heap, c)), mc_kind(o.heap, c) == kind)),
+            ("view", view),
+            ("invariant", lambda cx, o: convinv_at(o.heap, c, _gk)),
+            ("other-fields-unchanged", lambda cx, o: z3.And(
+                mc_base(o.heap, c) == mc_base(h, c),
+                mc_rates(o.heap, c) == mc_rates(h, c))),
+        ], modifies=mods, props=["C11"]),
+    ]
+    return req, cases
+
+
+def mc_update_scenarios():
+    def spec_rows(n, I):
+        rows = []
+        for i in range(n):
+            rows.append(VTuple([sym_obj(f"tc{i}", "Unit"),
+                                sym_rat(f"ta{i}", T_DEC if i % 2 == 0 else T_FRAC),
+                                sym_int(f"um{i}")]))
+        return VList(rows)
+    vals = {
+        "none": lambda I: NONE,
+        "year": lambda I: sym_int("year"),
+        "year-month": lambda I: VTuple([sym_int("year"), sym_int("month")]),
+        "date": lambda I: _sym_date(I, "vd"),
+        "float": lambda I: sym_rat("v", T_FLOAT),
+    }
+    out = []
+    for vk, vf in vals.items():
+        for n in (0, 1, 2):
+            if vk == "float" and n:
+                continue
+            out.append(Scenario(f"validity-{vk}/{n}-specs",
+                                lambda I, vf=vf, n=n: dict(
+                                    self=sym_obj("self", "MoneyConverter"),
+                                    validity=vf(I),
+                                    rate_specs=spec_rows(n, I))))
+    return out
+
+
+def _sym_date(I, name):
+    y, m, d = z3.Int(name + "_y"), z3.Int(name + "_m"), z3.Int(name + "_d")
+    I.path.assume(S.valid_date(y, m, d))
+    return VDate(y, m, d)
+
+
+from pyvc.sym import VDate  # noqa: E402
+
+register(Contract(KM + "MoneyConverter.update", mc_update_spec,
+                  mc_update_scenarios, props=["C11", "C16"], summarize=False,
+                  notes="string spellings of periods: bounded stand-in; rate "
+                        "spec lists of length 0..2 (bounded-in-length)"))
+
+
+# ---- MoneyConverter.get_rate(self, unit_currency, term_currency, effective_date=None) --
+def mc_get_rate_spec(ctx: Ctx):
+    self = ctx.a("self")
+    uc, tc, eff = ctx.a("unit_currency"), ctx.a("term_currency"), \
+        ctx.a("effective_date")
+    h = ctx.pre
+    c = self.t
+    base = mc_base(h, c)
+    y, m, d = _date_of(ctx, c, eff)
+    v = validity_of(mc_kind(h, c), y, m, d)
+    k_u, k_t = rkey(v, uc.t), rkey(v, tc.t)
+    req = [wf_conv(h, c), wf_currency(h, uc.t), wf_currency(h, tc.t),
+           convinv_at(h, c, k_u), convinv_at(h, c, k_t)]
+    no_kind = mc_kind_none(h, c)
+    has_u = z3.And(z3.Not(no_kind), rates_has(h, c, k_u))
+    has_t = z3.And(z3.Not(no_kind), rates_has(h, c, k_t))
+    r_u, r_t = rates_get(h, c, k_u), rates_get(h, c, k_t)
+    same = uc.t == tc.t
+    from_base = z3.And(z3.Not(same), base == uc.t)
+    to_base = z3.And(z3.Not(same), base != uc.t, base == tc.t)
+    cross = z3.And(z3.Not(same), base != uc.t, base != tc.t)
+    inv = er_mult(h, r_u) / er_amnt(h, r_u)
+    quot = er_rate(h, r_t) / er_rate(h, r_u)
+
+    def none_case(name, when):
+        return Case(name, when, ensures=[("none", lambda cx, o: is_none(o))],
+                    result=lambda cx: NONE, props=["C11"])
+    cases = [
+        # the property: 'one for a currency and itself'
+        Case("same-currency", same, ensures=[
+            ("rate-of-one", lambda cx, o: rate_result(
+                o, lambda r, ph: er_rate(ph, r) == 1))], props=["C11"]),
+        Case("from-base/stored-rate", z3.And(from_base, has_t), ensures=[
+            ("the-stored-entry-for-this-period", lambda cx, o:
+             isinstance(o.value, VObj) and o.value.t == r_t)],
+            result=lambda cx: VObj(r_t, "ExchangeRate"), props=["C11"]),
+        none_case("from-base/missing", z3.And(from_base, z3.Not(has_t))),
+        new_rate_case(ctx, "to-base/inverse-of-stored-rate",
+                      z3.And(to_base, has_u, inv >= MICRO), uc.t, tc.t, inv,
+                      props=("C11",)),
+        Case("to-base/inverse-too-small", z3.And(to_base, has_u, inv < MICRO),
+             raises="ValueError", props=["C11"]),
+        none_case("to-base/missing", z3.And(to_base, z3.Not(has_u))),
+        new_rate_case(ctx, "cross/quotient-of-base-rates",
+                      z3.And(cross, has_u, has_t, quot >= MICRO), uc.t, tc.t,
+                      quot, props=("C11",)),
+        Case("cross/too-small", z3.And(cross, has_u, has_t, quot < MICRO),
+             raises="ValueError", props=["C11"]),
+        none_case("cross/missing", z3.And(cross, z3.Not(z3.And(has_u, has_t)))),
+    ]
+    return req, cases
+
+
+def mc_get_rate_scenarios():
+    out = []
+    for dk, df in (("default-date", lambda I: NONE),
+                   ("given-date", lambda I: _sym_date(I, "eff"))):
+        out.append(Scenario(dk, lambda I, df=df: dict(
+            self=sym_obj("self", "MoneyConverter"),
+            unit_currency=sym_obj("uc", "Unit"),
+            term_currency=sym_obj("tc", "Unit"), effective_date=df(I))))
+    return out
+
+
+register(Contract(KM + "MoneyConverter.get_rate", mc_get_rate_spec,
+                  mc_get_rate_scenarios, props=["C11"], summarize=False))
+
+
+# ---- MoneyConverter.__call__(self, money_amnt, to_currency, effective_date=None) --------
+def mc_call_spec(ctx: Ctx):
+    self = ctx.a("self")
+    q, tc, eff = ctx.a("money_amnt"), ctx.a("to_currency"), \
+        ctx.a("effective_date")
+    h = ctx.pre
+    c = self.t
+    uc = unit_of(h, q.t)
+    base = mc_base(h, c)
+    y, m, d = _date_of(ctx, c, eff)
+    v = validity_of(mc_kind(h, c), y, m, d)
+    k_u, k_t = rkey(v, uc), rkey(v, tc.t)
+    req = [wf_conv(h, c), wf_qty(h, q.t), cls_of(h, q.t) == M.C_MONEY,
+           wf_currency(h, tc.t), convinv_at(h, c, k_u), convinv_at(h, c, k_t),
+           uc != tc.t]       # same currency: known finding F4 (get_rate raises)
+    no_kind = mc_kind_none(h, c)
+    has_u = z3.And(z3.Not(no_kind), rates_has(h, c, k_u))
+    has_t = z3.And(z3.Not(no_kind), rates_has(h, c, k_t))
+    r_u, r_t = rates_get(h, c, k_u), rates_get(h, c, k_t)
+    a = amount(h, q.t)
+    from_base = base == uc
+    to_base = z3.And(base != uc, base == tc.t)
+    cross = z3.And(base != uc, base != tc.t)
+    inv = er_mult(h, r_u) / er_amnt(h, r_u)
+    quot = er_rate(h, r_t) / er_rate(h, r_u)
+
+    def val_case(name, when, rate_of):
+        """amount times exactly the reported rate"""
+        def cl(cx, o):
+            k = z3.Int("call!k10")
+            return rat_result(o, lambda val, t: z3.And(exact_tag(t), rate_of(val)))
+        return Case(name, when, ensures=[("amount-times-reported-rate", cl)],
+                    props=["C11"])
+    cases = [
+        val_case("from-base", z3.And(from_base, has_t),
+                 lambda val: val == er_rate(h, r_t) * a),
+        Case("from-base/missing", z3.And(from_base, z3.Not(has_t)),
+             raises="UnitConversionError", props=["C11"]),
+        Case("to-base", z3.And(to_base, has_u, inv >= MICRO), ensures=[
+            ("amount-times-inverse-rate-rounded-to-6-digits",
+             lambda cx, o: rat_result(o, lambda val, t: z3.Exists(
+                 [_k10], z3.And(_k10 >= 0, val == stored_amount(
+                     inv, 1, S.p10(_k10)) / S.p10(_k10) * a))))],
+            props=["C11"]),
+        Case("to-base/inverse-too-small", z3.And(to_base, has_u, inv < MICRO),
+             raises="ValueError", props=["C11"]),
+        Case("to-base/missing", z3.And(to_base, z3.Not(has_u)),
+             raises="UnitConversionError", props=["C11"]),
+        Case("cross", z3.And(cross, has_u, has_t, quot >= MICRO), ensures=[
+            ("amount-times-quotient-rate-rounded-to-6-digits",
+             lambda cx, o: rat_result(o, lambda val, t: z3.Exists(
+                 [_k10], z3.And(_k10 >= 0, val == stored_amount(
+                     quot, 1, S.p10(_k10)) / S.p10(_k10) * a))))],
+            props=["C11"]),
+        Case("cross/too-small", z3.And(cross, has_u, has_t, quot < MICRO),
+             raises="ValueError", props=["C11"]),
+        Case("cross/missing", z3.And(cross, z3.Not(z3.And(has_u, has_t))),
+             raises="UnitConversionError", props=["C11"]),
+    ]
+    return req, cases
+
+
+_k10 = z3.Int("call!k10")
+
+
+def mc_call_scenarios():
+    out = []
+    for dk, df in (("default-date", lambda I: NONE),
+                   ("given-date", lambda I: _sym_date(I, "eff"))):
+        out.append(Scenario(dk, lambda I, df=df: dict(
+            self=sym_obj("self", "MoneyConverter"), money_amnt=qty_arg("money"),
+            to_currency=sym_obj("tc", "Unit"), effective_date=df(I))))
+    return out
+
+
+register(Contract(KM + "MoneyConverter.__call__", mc_call_spec,
+                  mc_call_scenarios, props=["C11"], summarize=False,
+                  inline=[KM + "MoneyConverter.get_rate"]))
+
+
+# ---- MoneyConverter.__init__ ----------------------------------------------------------------
+def mc_init_spec(ctx: Ctx):
+    self, base = ctx.a("self"), ctx.a("base_currency")
+    h = ctx.pre
+    return [alloc(h, self.t)], [Case("empty-converter", TRUE, ensures=[
+        ("base", lambda cx, o: mc_base(o.heap, self.t) == base.t),
+        ("no-kind-no-rates", lambda cx, o: z3.And(
+            mc_kind_none(o.heap, self.t),
+            z3.Not(rates_has(o.heap, self.t, _gk)),
+            z3.Not(alloc(h, mc_rates(o.heap, self.t))))),
+    ], modifies=["MoneyConverter.*", "Dict:rate.*"], props=["C11"])]
+
+
+register(Contract(KM + "MoneyConverter.__init__", mc_init_spec,
+                  lambda: [Scenario("default-callable", lambda I: dict(
+                      base_currency=sym_obj("base", "Unit"),
+                      get_dflt_effective_date=NONE),
+                      constructing="MoneyConverter"),
+                      Scenario("given-callable", lambda I: dict(
+                          base_currency=sym_obj("base", "Unit"),
+                          get_dflt_effective_date=VOpaque("callable")),
+                          constructing="MoneyConverter")],
+                  props=["C11"], summarize=False))
+from pyvc.sym import VOpaque  # noqa: E402
